@@ -91,6 +91,7 @@ inductive XOp where
   | layoutz | layouta (k : Nat) | graphz
   | bperm (p q : Array Nat)
   | triDense
+  | xclone (dDiff iDiff : Bool)
 
 /-- `ok tgt src?` -/
 inductive ResX (α : Type) where
@@ -152,6 +153,11 @@ def stepX [Zero α] (round : α → α) (m : Mat α) : XOp → ResX α
     match m with
     | .dense A => .ok (.dense A.transposeInplace) none
     | _ => .bad
+  | .xclone dDiff iDiff =>
+    -- cross-type clone chain X<Q,IT> -> X<DT2,IT2> -> X<Q,IT> (any mode; what is shared is `Heap.xclone`'s business):
+    -- the content passes through the other data type (`round`) and / or the other index type
+    let m1 := if dDiff then m.mapVal round else m
+    .ok (if iDiff then m1.mapIdx fun a => narrow32 (narrow32 a) else m1) none
 
 end Mat
 end FeatModel.LA
